@@ -406,20 +406,24 @@ func genJSON(t *rapid.T, d int) interface{} {
 	}
 	switch {
 	case k < 2:
-		n := rapid.IntRange(1, 3).Draw(t, "nkeys")
+		n := rapid.IntRange(0, 3).Draw(t, "nkeys")
 		m := map[string]interface{}{}
 		for i := 0; i < n; i++ {
 			m[rapid.StringMatching(`[a-z<&]{1,4}`).Draw(t, "key")] = genJSON(t, d+1)
 		}
 		return m
 	case k < 4:
-		n := rapid.IntRange(1, 3).Draw(t, "nelem")
+		n := rapid.IntRange(0, 3).Draw(t, "nelem")
 		s := make([]interface{}, 0, n)
 		for i := 0; i < n; i++ {
 			s = append(s, genJSON(t, d+1))
 		}
 		return s
 	case k < 6:
+		if rapid.IntRange(0, 4).Draw(t, "oddstr") == 0 {
+			// characters JSON has to escape (and may escape in more than one way)
+			return rapid.StringMatching(`[a-z\x{01}\x{08}\t\n\r"\\/\x{7f}\x{2028}\x{2029}\x{fffd}\x{1F600}]{0,8}`).Draw(t, "odd")
+		}
 		return bigText(t, "str")
 	case k < 7:
 		return float64(rapid.IntRange(-1000000, 1000000).Draw(t, "num"))
